@@ -251,6 +251,23 @@ impl DecodeContext {
     }
 }
 
+/// Verification hooks (compiled only with `--cfg pilota_verif`): construct and
+/// observe a context with an arbitrary remaining recursion budget, so that one
+/// level of `merge`/`skip_field` can be checked from any budget.
+#[cfg(not(feature = "no-recursion-limit"))]
+#[cfg(pilota_verif)]
+impl DecodeContext {
+    #[doc(hidden)]
+    pub fn verif_with_budget(recurse_count: u32) -> DecodeContext {
+        DecodeContext { recurse_count }
+    }
+
+    #[doc(hidden)]
+    pub fn verif_budget(&self) -> u32 {
+        self.recurse_count
+    }
+}
+
 /// Returns the encoded length of the value in LEB128 variable length format.
 /// The returned value will be between 1 and 10, inclusive.
 #[inline]
